@@ -383,3 +383,182 @@ Example C17_euclid_float_instance_inexact :
   let y := [0x1.3333333333333p-2; 0x1.999999999999ap-4; 0x1.6666666666666p-1]%float in
   exists r, euclidian FOps x y = Some r /\ PrimFloat.is_finite r = true /\ diff_normal_b x y = true.
 Proof. eexists. repeat split; vm_compute; reflexivity. Qed.
+
+(* ======================================================================================================
+   Rounding, SINGLE PRECISION: the binary32 instance (F32Ops of SC.C17.F32: Flocq's IEEE754.Bits
+   b32_plus / b32_minus / b32_mult / b32_div / b32_sqrt in mode_NE and b32_abs on `binary_float 24 128`)
+   of the SAME model definitions — the ones the correspondence check executes bit for bit against
+   the f32 code paths.  Proved on Flocq's binary32 directly (SC.C17.FloatError32, SC.C17.ProofsFloat32):
+   no primitive-float bridge, so no FloatAxioms are involved.
+   Vocabulary (SC.C17.FloatError32): `FR32 d` = the real value of d (Binary.B2R 24 128 d);
+   `RV32 x` = map FR32 x;  u32 = 2^-24 (unit roundoff), eta32 = 2^-150 (half the smallest subnormal),
+   `rnd32 r` = r rounded to nearest-even binary32.  The only no-overflow hypothesis is
+   `Binary.is_finite 24 128 d = true` for the RESULT d.
+   ====================================================================================================== *)
+From Flocq Require BinarySingleNaN Binary Bits.
+From SC Require Import C17.F32 C17.FloatError32 C17.ProofsFloat32.
+
+(* what the operations, the constants and the value function are *)
+Theorem C17_float_constants_f32 :
+  (oadd F32Ops = Bits.b32_plus BinarySingleNaN.mode_NE /\ osub F32Ops = Bits.b32_minus BinarySingleNaN.mode_NE /\
+   omul F32Ops = Bits.b32_mult BinarySingleNaN.mode_NE /\ odiv F32Ops = Bits.b32_div BinarySingleNaN.mode_NE /\
+   osqrt F32Ops = Bits.b32_sqrt BinarySingleNaN.mode_NE /\ oabs F32Ops = Bits.b32_abs) /\
+  (forall x, FR32 x = Binary.B2R 24 128 x) /\
+  u32 = / 2 ^ 24 /\ eta32 = / 2 ^ 150 /\ FR32 (o0 F32Ops) = 0 /\
+  (forall z, (0 <= z < 2 ^ 24)%Z -> FR32 (oofZ F32Ops z) = IZR z) /\
+  (forall x, FR32 (oabs F32Ops x) = Rabs (FR32 x)).
+Proof.
+  split; [repeat split|]. split; [reflexivity|]. split; [exact u32_eq|]. split; [exact eta32_eq|].
+  split; [exact FR32_zero|]. split; [exact FR32_int | exact f32abs_exact].
+Qed.
+
+(* one operation: finite result => finite operands and the result is the correctly rounded exact
+   result; + and - relative error u32 even in the subnormal range, * relative error u32 plus the
+   underflow term eta32, sqrt relative error u32 *)
+Theorem C17_float_operation_errors_f32 : forall x y : f32,
+  let fin := fun z : f32 => Binary.is_finite 24 128 z = true in
+  (fin (oadd F32Ops x y) ->
+     fin x /\ fin y /\ FR32 (oadd F32Ops x y) = rnd32 (FR32 x + FR32 y) /\
+     Rabs (FR32 (oadd F32Ops x y) - (FR32 x + FR32 y)) <= u32 * Rabs (FR32 x + FR32 y)) /\
+  (fin (osub F32Ops x y) ->
+     fin x /\ fin y /\ FR32 (osub F32Ops x y) = rnd32 (FR32 x - FR32 y) /\
+     Rabs (FR32 (osub F32Ops x y) - (FR32 x - FR32 y)) <= u32 * Rabs (FR32 x - FR32 y)) /\
+  (fin (omul F32Ops x y) ->
+     fin x /\ fin y /\ FR32 (omul F32Ops x y) = rnd32 (FR32 x * FR32 y) /\
+     Rabs (FR32 (omul F32Ops x y) - FR32 x * FR32 y) <= u32 * Rabs (FR32 x * FR32 y) + eta32) /\
+  (fin (osqrt F32Ops x) ->
+     fin x /\ 0 <= FR32 x /\ FR32 (osqrt F32Ops x) = rnd32 (R_sqrt.sqrt (FR32 x)) /\
+     Rabs (FR32 (osqrt F32Ops x) - R_sqrt.sqrt (FR32 x)) <= u32 * R_sqrt.sqrt (FR32 x)).
+Proof.
+  intros x y fin. split; [|split; [|split]].
+  - intros H. destruct (f32add_finite x y H) as (A & B & C). repeat split; auto. apply f32add_error, H.
+  - intros H. destruct (f32sub_finite x y H) as (A & B & C). repeat split; auto. apply f32sub_error, H.
+  - intros H. destruct (f32mul_finite x y H) as (A & B & C). repeat split; auto. apply f32mul_error, H.
+  - intros H. destruct (f32sqrt_finite x H) as (A & B). destruct (f32sqrt_error x H) as (C & D).
+    repeat split; auto.
+Qed.
+
+(* recursive summation of non-negative binary32 numbers: relative error (1+u32)^(n-1) - 1 *)
+Theorem C17_float_recursive_sum_error_f32 : forall l : list f32,
+  Forall (fun t => 0 <= FR32 t) l ->
+  Binary.is_finite 24 128 (fold_left (oadd F32Ops) l (o0 F32Ops)) = true ->
+  let s := FR32 (fold_left (oadd F32Ops) l (o0 F32Ops)) in
+  let S := fold_right Rplus 0 (map FR32 l) in
+  Forall (fun t => Binary.is_finite 24 128 t = true) l /\
+  0 <= s /\ Rabs (s - S) <= ((1 + u32) ^ (length l - 1) - 1) * S.
+Proof.
+  intros l Hl Hfin. cbv zeta. split.
+  - exact (proj2 (fold_f32add_finite_acc l _ Hfin)).
+  - exact (fsum32_nonneg_error l Hl Hfin).
+Qed.
+
+(* Manhattan: relative error (1+u32)^n - 1 *)
+Theorem C17_manhattan_float_error_f32 : forall (x y : list f32) (d : f32),
+  manhattan F32Ops x y = Some d -> Binary.is_finite 24 128 d = true ->
+  let D := sigma (length x) (fun i => Rabs (comp (RV32 x) i - comp (RV32 y) i)) in
+  manhattan ROps (RV32 x) (RV32 y) = Some D /\ 0 <= D /\ 0 <= FR32 d /\
+  Rabs (FR32 d - D) <= ((1 + u32) ^ length x - 1) * D.
+Proof. exact manhattan_float_error32. Qed.
+
+(* squared Euclidian: relative error (1+u32)^(n+2) - 1 plus n underflow terms; without the underflow
+   terms when every coordinate difference is zero or at least 2^-62 in magnitude *)
+Theorem C17_squared_euclidean_float_error_f32 : forall (x y : list f32) (d : f32),
+  squared_distance F32Ops x y = Some d -> Binary.is_finite 24 128 d = true ->
+  let n := length x in
+  let D := sigma n (fun i => (comp (RV32 x) i - comp (RV32 y) i) * (comp (RV32 x) i - comp (RV32 y) i)) in
+  squared_distance ROps (RV32 x) (RV32 y) = Some D /\ 0 <= D /\ 0 <= FR32 d /\
+  Rabs (FR32 d - D) <= ((1 + u32) ^ (n + 2) - 1) * (D + INR n * eta32) + INR n * eta32 /\
+  ((forall a b, In (a, b) (combine x y) -> FR32 a = FR32 b \/ / 2 ^ 62 <= Rabs (FR32 a - FR32 b)) ->
+   Rabs (FR32 d - D) <= ((1 + u32) ^ (n + 2) - 1) * D).
+Proof.
+  intros x y d H Hfin n D.
+  destruct (squared_distance_float_error32 x y d H Hfin) as (A & B & C & E & F).
+  repeat split; auto. intros Hno. apply F, diff_normal32_intro, Hno.
+Qed.
+
+(* Euclidian: one more rounding (the square root never under- or overflows) *)
+Theorem C17_euclidean_float_error_f32 : forall (x y : list f32) (r : f32),
+  euclidian F32Ops x y = Some r -> Binary.is_finite 24 128 r = true ->
+  (forall a b, In (a, b) (combine x y) -> FR32 a = FR32 b \/ / 2 ^ 62 <= Rabs (FR32 a - FR32 b)) ->
+  let D := sigma (length x) (fun i => (comp (RV32 x) i - comp (RV32 y) i) * (comp (RV32 x) i - comp (RV32 y) i)) in
+  euclidian ROps (RV32 x) (RV32 y) = Some (R_sqrt.sqrt D) /\ 0 <= FR32 r /\
+  Rabs (FR32 r - R_sqrt.sqrt D) <= ((1 + u32) ^ (length x + 3) - 1) * R_sqrt.sqrt D.
+Proof.
+  intros x y r H Hfin Hno. apply (euclidian_float_error32 x y r H Hfin). apply diff_normal32_intro, Hno.
+Qed.
+
+(* the same with the no-underflow hypothesis in DECIDABLE form (evaluate `diff_normal_b32 x y` with
+   vm_compute): every computed |x_i - y_i| is 0 or at least 2^-61 *)
+Theorem C17_euclidean_float_error_checked_f32 : forall (x y : list f32) (r : f32),
+  euclidian F32Ops x y = Some r -> Binary.is_finite 24 128 r = true -> diff_normal_b32 x y = true ->
+  let D := sigma (length x) (fun i => (comp (RV32 x) i - comp (RV32 y) i) * (comp (RV32 x) i - comp (RV32 y) i)) in
+  euclidian ROps (RV32 x) (RV32 y) = Some (R_sqrt.sqrt D) /\ 0 <= FR32 r /\
+  Rabs (FR32 r - R_sqrt.sqrt D) <= ((1 + u32) ^ (length x + 3) - 1) * R_sqrt.sqrt D.
+Proof. exact euclidian_float_error32_checked. Qed.
+
+(* Hamming (any element type, 0 < n < 2^24): the count and both conversions are exact, the result is
+   the correctly rounded quotient — one rounding; 0 when no position differs *)
+Theorem C17_hamming_float_exact_f32 : forall (A : Type) (neqb : A -> A -> bool) (x y : list A) (d : f32),
+  hamming F32Ops neqb x y = Some d -> (0 < length x)%nat -> (Z.of_nat (length x) < 2 ^ 24)%Z ->
+  let q := INR (diff_count neqb x y) / INR (length x) in
+  hamming ROps neqb x y = Some q /\ Binary.is_finite 24 128 d = true /\ FR32 d = rnd32 q /\
+  Rabs (FR32 d - q) <= u32 * q /\ (diff_count neqb x y = 0%nat -> FR32 d = 0).
+Proof. exact @hamming_float_error32. Qed.
+
+(* ---------------- the hypotheses are satisfiable (single precision) ---------------- *)
+(* exact arithmetic: [1; 2.5; -3] vs [0.5; 4; 1] (bit patterns of the f32 values), distance 6 = 0x40C00000 *)
+Example C17_manhattan_float_instance_f32 :
+  exists d, manhattan F32Ops (map f32_of_bits [1065353216; 1075838976; 3225419776]%Z)
+                             (map f32_of_bits [1056964608; 1082130432; 1065353216]%Z) = Some d /\
+            Binary.is_finite 24 128 d = true /\ f32_bits d = 1086324736%Z.
+Proof. apply f32_result_intro. vm_compute. reflexivity. Qed.
+(* inputs 0.1f, 0.2f, 0.3f / 0.3f, 0.1f, 0.7f (0x3DCCCCCD, 0x3E4CCCCD, 0x3E99999A, 0x3F333333): the
+   operations round; the result is 0x3F333333 *)
+Example C17_manhattan_float_instance_inexact_f32 :
+  exists d, manhattan F32Ops (map f32_of_bits [1036831949; 1045220557; 1050253722]%Z)
+                             (map f32_of_bits [1050253722; 1036831949; 1060320051]%Z) = Some d /\
+            Binary.is_finite 24 128 d = true /\ f32_bits d = 1060320051%Z.
+Proof. apply f32_result_intro. vm_compute. reflexivity. Qed.
+Example C17_euclid_float_instance_f32 :
+  let x := map f32_of_Z [1; 2; 3]%Z in let y := map f32_of_Z [4; 6; 3]%Z in
+  (exists r, euclidian F32Ops x y = Some r /\ Binary.is_finite 24 128 r = true /\
+             f32_bits r = 1084227584%Z (* 5.0f *)) /\
+  (forall a b, In (a, b) (combine x y) -> FR32 a = FR32 b \/ / 2 ^ 62 <= Rabs (FR32 a - FR32 b)).
+Proof.
+  split; [apply f32_result_intro; vm_compute; reflexivity|].
+  assert (Hsmall : / 2 ^ 62 <= 1).
+  { assert (1 <= 2 ^ 62) by (apply pow_R1_Rle; lra).
+    apply (Rmult_le_reg_r (2 ^ 62)); [lra|]. rewrite Rinv_l by lra. lra. }
+  cbn [map combine].
+  intros a b [E|[E|[E|[]]]]; injection E as <- <-.
+  - right. rewrite !FR32_int by lia. rewrite Rabs_left; lra.
+  - right. rewrite !FR32_int by lia. rewrite Rabs_left; lra.
+  - left. reflexivity.
+Qed.
+(* inputs 0.1f, 0.2f, 0.3f / 0.3f, 0.1f, 0.7f: all three hypotheses of the checked form by computation *)
+Example C17_euclid_float_instance_inexact_f32 :
+  let x := map f32_of_bits [1036831949; 1045220557; 1050253722]%Z in
+  let y := map f32_of_bits [1050253722; 1036831949; 1060320051]%Z in
+  (exists r, euclidian F32Ops x y = Some r /\ Binary.is_finite 24 128 r = true /\
+             f32_bits r = 1055563964%Z) /\ diff_normal_b32 x y = true.
+Proof. split; [apply f32_result_intro; vm_compute; reflexivity | vm_compute; reflexivity]. Qed.
+Example C17_hamming_float_instance_f32 :
+  (exists d, hamming F32Ops (fun a b => negb (Nat.eqb a b)) [1; 0; 0; 1]%nat [1; 1; 0; 0]%nat = Some d /\
+             Binary.is_finite 24 128 d = true /\ f32_bits d = 1056964608%Z (* 0.5f *)) /\
+  (0 < length [1; 0; 0; 1]%nat)%nat /\ (Z.of_nat (length [1; 0; 0; 1]%nat) < 2 ^ 24)%Z.
+Proof. split; [apply f32_result_intro; vm_compute; reflexivity|]. split; [cbn; lia | vm_compute; reflexivity]. Qed.
+(* what the hypotheses exclude in single precision: overflow of a square ([2^100] vs [0]: the result
+   is +infinity, not finite) and underflow of a square ([2^-100] vs [0], a non-zero difference below
+   2^-62: the computed distance is 0); 2^100 = bits 0x71800000, 2^-100 = bits 0x0D800000 *)
+Example C17_euclid_float_overflow_and_underflow_f32 :
+  euclidian F32Ops [f32_of_bits 1904214016] [f32_of_Z 0] = Some (Binary.B754_infinity 24 128 false) /\
+  Binary.is_finite 24 128 (Binary.B754_infinity 24 128 false) = false /\
+  euclidian F32Ops [f32_of_bits 226492416] [f32_of_Z 0] = Some (Binary.B754_zero 24 128 false) /\
+  FR32 (f32_of_bits 226492416) <> 0 /\
+  diff_normal_b32 [f32_of_bits 226492416] [f32_of_Z 0] = false.
+Proof.
+  split; [vm_compute; reflexivity|]. split; [reflexivity|]. split; [vm_compute; reflexivity|].
+  split; [|vm_compute; reflexivity].
+  unfold FR32. set (c := f32_of_bits 226492416). vm_compute in c. subst c.
+  cbn [Binary.B2R]. apply Rgt_not_eq, Rlt_gt. apply Flocq.Core.Float_prop.F2R_gt_0. reflexivity.
+Qed.
